@@ -114,6 +114,9 @@ class Ctx:
     def check_proofs(self, propfiles):
         """Re-check the theorems of the property (and everything they depend on). Returns (ok, failing log)."""
         with Lock('coq'):
+            # the generated part of the development (gen/*.v) is regenerated from /repo's current tree before every proof check
+            rc0, out0 = sh(['python3', os.path.join(ROOT, 'tools', 'extract_facts.py')])
+            self.notes['extract_facts'] = out0.strip().split('\n')[-12:]
             # Props files print their assumptions when compiled: force their recompilation
             for pf in propfiles:
                 for ext in ('.vo', '.glob', '.vok', '.vos'):
